@@ -88,6 +88,8 @@ func main() {
 		cmdCheck(os.Args[2:])
 	case "replay":
 		cmdReplay(os.Args[2:])
+	case "sweep":
+		cmdSweep(os.Args[2:])
 	default:
 		fmt.Fprintln(os.Stderr, "unknown subcommand", os.Args[1])
 		os.Exit(2)
@@ -260,3 +262,64 @@ func summariseModel(m string) string {
 }
 
 var _ = types.Typ
+
+// cmdSweep: annotation-free safety sweep.  Every function of the package that
+// has no verified contract is run with an empty contract (no preconditions):
+// the index / slice / nil / type-assertion / division / nil-map obligations are
+// generated and discharged.  Functions the engine cannot process are listed.
+// A failed obligation here is a lead to look at, not a verdict: without a
+// precondition the function is checked for ALL argument values, including ones
+// its callers never pass.
+func cmdSweep(args []string) {
+	fs := flag.NewFlagSet("sweep", flag.ExitOnError)
+	repo := fs.String("repo", "/repo", "repository")
+	budget := fs.Int("t", 5, "per-obligation budget (s)")
+	fs.Parse(args)
+	e, err := loadEngine(*repo, filepath.Join(*repo, "contracts_verif.go"))
+	if err != nil {
+		fmt.Fprintln(os.Stderr, "govc:", err)
+		os.Exit(2)
+	}
+	e.translateFacts()
+	var obls []*Obligation
+	nf, nlim := 0, 0
+	for _, k := range e.funcKeys() {
+		if con := e.spec.Contracts[k]; con != nil && !con.Assumed {
+			continue
+		}
+		// give the function an empty verified contract for this run
+		saved := e.spec.Contracts[k]
+		hdr := "func " + k + "()"
+		con := &Contract{Key: k, Header: hdr, Decl: e.funcs[k], Sweep: true}
+		e.spec.Contracts[k] = con
+		c := e.verifyFunc(k)
+		if saved != nil {
+			e.spec.Contracts[k] = saved
+		} else {
+			delete(e.spec.Contracts, k)
+		}
+		if c.limit != "" {
+			nlim++
+			fmt.Printf("LIMIT    %-50s %s\n", k, c.limit)
+			continue
+		}
+		nf++
+		for _, o := range c.obls {
+			if o.Kind == "safe" || o.Kind == "ovf" || o.Kind == "pre" {
+				obls = append(obls, o)
+			}
+		}
+	}
+	work, _ := os.MkdirTemp("", "govc-sweep-")
+	defer os.RemoveAll(work)
+	e.dischargeAll(obls, work, *budget, 16)
+	bad := 0
+	for _, g := range groupObls(obls) {
+		if g.status != "proved" {
+			bad++
+			o := g.obls[0]
+			fmt.Printf("%-8s %-60s %s  %s\n", strings.ToUpper(g.status), g.name, o.Pos, o.Text)
+		}
+	}
+	fmt.Printf("sweep: %d functions processed, %d outside the subset, %d safety obligations, %d not discharged\n", nf, nlim, len(groupObls(obls)), bad)
+}
